@@ -9,6 +9,9 @@ THEOREMS = ["Props.C01.c01_runloop", "Props.C01.c01_toplevel", "Props.C01.c01_co
 
 
 def run(check, tier):
+    import tie_common
+
+    tie_common.run_pyops(check, tier)      # the translator's prelude against CPython (the heap-mode bridges are written against it)
     import interp_suite as S
 
     n = 2500 if tier == "quick" else 120000
